@@ -6,7 +6,7 @@ PID = "C17"
 MODULE, PKG, BIN = "x/go", "./verifh/c17", "c17"
 COQ_IMPORTS = "From Synnax Require Import Common.Base Core.Gorp Monitors.Mon_C17."
 CASE_TYPE = "case_t"
-COUNTS = {"quick": 700, "thorough": 30000}
+COUNTS = {"quick": 700, "thorough": 20000}
 SHARD = 90
 READY = True
 
@@ -169,9 +169,14 @@ def gen_case(rng, tier="quick", dup_ok=True, cross_p=0.02):
             ops.append({"op": "begin", "t": nt})
         elif x < 0.31:
             rows = []
+            tomb = [k for k, w in sim.txs.get(t, {}).items() if w is None] if t else []
             for _ in range(rng.choice([1, 1, 2, 3])):
                 r = gen_row(rng)
-                if view and rng.random() < 0.3:
+                if tomb and rng.random() < 0.5:
+                    r[0] = rng.choice(tomb)        # re-create a key this transaction deleted
+                    if rng.random() < 0.5:
+                        r[1 + rng.randrange(2)] = 0  # ... with the zero value in an indexed column
+                elif view and rng.random() < 0.3:
                     r[0] = rng.choice(list(view))
                 rows.append(r)
             for r in rows:
